@@ -21,16 +21,17 @@ import (
 // Timestamps are drawn from a tiny universe so sessions start inside, adjacent to and
 // around existing data, write into existing data and write backwards.
 type topCase struct {
-	h      *harness.H
-	c      int
-	r      *prng.R
-	fs     xfs.FS
-	db     *cesium.DB
-	cap    telem.Size
-	state  [nTop][]dom // committed domains of idx, i64 data, string data
-	noRead bool        // after a DeleteTimeRange the full-read comparison is left to C04
-	log    []string
-	dead   bool
+	h       *harness.H
+	c       int
+	r       *prng.R
+	fs      xfs.FS
+	db      *cesium.DB
+	cap     telem.Size
+	state   [nTop][]dom // committed domains of idx, i64 data, string data
+	partial bool        // a failed multi-channel commit was applied on some channels earlier in this history
+	noRead  bool        // after a DeleteTimeRange the full-read comparison is left to C04
+	log     []string
+	dead    bool
 
 	successes, mustFails int
 	val                  int64
@@ -44,6 +45,12 @@ func (t *topCase) logf(f string, a ...any) { t.log = append(t.log, fmt.Sprintf(f
 
 func (t *topCase) violate(sig, what string) {
 	t.dead = true
+	if t.partial {
+		// a failed multi-channel commit was applied on the channels whose range was free
+		// (counted, not judged): the channels of one index group no longer hold the same
+		// timestamps, and what later operations do in that state is tagged as such
+		sig += ":after-partially-applied-failed-commit"
+	}
 	t.h.Violation("cesium", t.c, sig, what, map[string]any{
 		"file_cap": int64(t.cap), "ops": t.log,
 		"idx_before": fmtState(t.state[0]), "data_before": fmtState(t.state[1]),
@@ -377,6 +384,7 @@ func (t *topCase) session() {
 			}
 			if partial {
 				t.h.Count("failed_commits_partially_applied_on_other_channels", 1)
+				t.partial = true
 				t.state = st
 				t.noRead = true // channels now differ in content; reading is C01/C04's
 			} else if !t.readable(wop) {
